@@ -180,8 +180,15 @@ func init() {
 				return a
 			}
 			n := r.Range(1, 4)
+			var picks []string
 			for i := 0; i < n; i++ {
-				inj := c37Injections[(c.Index/8+i*3+r.Intn(2))%len(c37Injections)]
+				picks = append(picks, c37Injections[(c.Index/8+i*3+r.Intn(2))%len(c37Injections)])
+			}
+			// the builders' queues of areas waiting for their paths are exercised in one builder case in three
+			if (kind == "compact" || kind == "basic") && r.Chance(0.35) {
+				picks = append(picks, "areas-before-shared-ring")
+			}
+			for i, inj := range picks {
 				c.Count("inject_" + inj)
 				names = append(names, inj)
 				off := int64(200000 + 30000*i)
